@@ -70,8 +70,10 @@ def random_geometry_recipe(rng, kind):
     if kind == "mesh":
         r["mesh"] = meshes.random_recipe(rng, bases=["tetra", "box", "octa", "icosa", "icosa1", "prism5", "torus", "open_box", "two_boxes"], variants=["plain"])
         r["shape"] = rng.choice(["normal", "normal", "normal", "single_face", "empty", "far", "tiny", "negative"])
-        if rng.random() < 0.004:
-            r["mesh"]["base"], r["shape"] = "grid260", "large_index"
+        u = rng.random()
+        if u < 0.008:
+            # more than 65535 vertices with many faces / with fewer than 65535 faces (an unmerged soup)
+            r["mesh"]["base"], r["shape"] = "grid260", ("large_index" if u < 0.004 else "large_soup")
         r["colors"] = rng.choice([None, None, "vertex", "face"])
     elif kind == "scene":
         r["parts"] = [meshes.random_recipe(rng, bases=["tetra", "box", "octa", "prism5"], variants=["plain"]) for _ in range(rng.randint(1, 3))]
@@ -97,6 +99,9 @@ def build_geometry(r):
     if kind == "mesh":
         V, F = meshes.build(r["mesh"])
         shape = r.get("shape", "normal")
+        if shape == "large_soup":
+            V = V[F[:22000]].reshape(-1, 3)
+            F = np.arange(len(V)).reshape(-1, 3)
         if shape == "single_face":
             V, F = V[F[0]], np.array([[0, 1, 2]])
         elif shape == "empty":
